@@ -45,7 +45,7 @@ impl Service<Req> for CountInner {
     }
 }
 
-type Svc = tower_resilience_cache::Cache<CountInner, Req, u8, Resp>;
+type Svc = tower_resilience_cache::Cache<CountInner, Req, trv_core::inner::WeakKey, Resp>;
 
 pub struct Shared {
     svcs: [Svc; 2],
@@ -107,7 +107,7 @@ impl TCfg {
             name: self.label(),
             make: Arc::new(move || {
                 let log = Arc::new(Mutex::new(Log::default()));
-                let layer = CacheLayer::<Req, u8>::builder().max_size(me.max_size).eviction_policy(me.policy).key_extractor(|r: &Req| r.key).build();
+                let layer = CacheLayer::<Req, trv_core::inner::WeakKey>::builder().max_size(me.max_size).eviction_policy(me.policy).key_extractor(|r: &Req| trv_core::inner::WeakKey(r.key)).build();
                 let svcs = if me.shared_store {
                     let sl = layer.shared::<Resp>();
                     [sl.layer(CountInner { log: log.clone() }), sl.layer(CountInner { log: log.clone() })]
